@@ -29,6 +29,7 @@ def run(ctx):
     ctx.rule("C01.2", "every publication point in commit/compact/get_or_create_label is dominated by the Ok arm of the WAL fsync")
     ctx.rule("C01.3", "no page-file write reaches the Checkpoint/ManifestSwitch append (or rewrite_as_snapshot) without a Pager sync in between")
     ctx.rule("C01.4", "only the frozen writer set calls Wal::append / rewrite_as_snapshot; only wal.rs and vacuum.rs rename files")
+    ctx.rule("C01.8", "write-then-rename: the replacement log written by rewrite_as_snapshot is fsynced (Ok arm) before any rename puts it in place of the log")
     ctx.rule("C01.5", "Wal::append writes at an offset derived from the end of the last valid record (not raw end-of-file)")
 
     # ---- clause 4: LAYER ------------------------------------------------
@@ -159,3 +160,28 @@ def run(ctx):
             after = b.reachable([c.target]) if c.target is not None else set()
             if not [s for s in syncs if s in after and s != c.bb]:
                 ctx.observe("%s: fs::rename at %s is not followed by a directory fsync (power-loss durability only)" % (x, c.loc()))
+
+
+    # ---- clause 8: sync before rename -------------------------------------------------------------
+    # After the rename the directory entry of the log names the new file; if its bytes were never fsynced, a power cut leaves an
+    # empty or partial log where the only copy of the manifest / checkpoint of every compacted transaction used to be.  The caller's
+    # later Wal::fsync comes after the rename and cannot close that window.
+    rw = ctx.body(M.WAL_REWRITE)
+    renames = [c for c in rw.calls() if c.name == M.FS_RENAME]
+    syncs = [c for c in rw.calls() if c.name in M.FILE_SYNC]
+    writes = [c for c in rw.calls() if c.name.endswith("::write_all") or c.name.endswith("rewrite_as_snapshot::append_to")]
+    ctx.floor("C01.8", "rename sites in rewrite_as_snapshot", len(renames), 1)
+    ctx.floor("C01.8", "writes of the replacement log", len(writes), 1)
+    for k, r in enumerate(sorted(renames, key=lambda c: (c.line, c.bb))):
+        ok = False
+        for s in syncs:
+            arm = paths.ok_arm(rw, s)
+            if arm is not None and rw.dominates(arm, r.bb):
+                # the sync must come after the last write: no write reachable from the sync before the rename
+                late = [w for w in writes if w.bb in rw.reachable([arm], avoid=[r.bb])]
+                if not late:
+                    ok = True
+        ctx.instance("C01.8", "rewrite_as_snapshot: rename#%d dominated by Ok(sync) of the completely written replacement=%s" % (k, ok))
+        ctx.oblige(ok, "C01.8", "rewrite_as_snapshot:rename#%d-before-sync" % k,
+                   "the replacement log is renamed over the log before its contents are fsynced: a power cut after the rename leaves an empty log, "
+                   "and with it every compacted (acknowledged) transaction is gone", r.loc())
